@@ -9,9 +9,9 @@ instantiated, per case, by finite tables recorded from the REAL functions during
 (fail closed on a missing entry), so the check is independent of Compiler/ParseLine.v.
 
 Model version (Compiler/ParseBlocks.v carries the parameters `fixed`, `cap`): BARDIC_C11B_VARIANT = auto
-(default: read off the tree under test), fixed (/repo as of 623c615: legacy headers without `>>` diagnosed,
+(default: read off the tree under test), fixed (/repo as of 19fd338: legacy headers without `>>` diagnosed,
 glue honoured by every text flush of an @if branch, leading comment lines of a loop body dropped before
-dedenting, nesting cap 100 - what the unsuffixed names of
+dedenting, blank @py: body lines emptied, ~ continuation lines dedented in branches, nesting cap 100 - what the unsuffixed names of
 ParseBlocks.v stand for), `a` (the same without the cap) or `current` (45ce265, before those commits).
 Whatever the version, the direct oracle reports every escape with an internal error.
 """
@@ -618,6 +618,13 @@ CORPUS = [
               "@unhook turn_end T", "5<>", "+ [c] -> T", "6<>", "@py:", "x = 1", "@endpy", "7<>", "@if b:", "8<>", "@endif",
               "9<>", "@for i in xs:", "10<>", "@endfor", "11<>", "@endif"], 0),
     ("loop", ["@for i in xs:", "  @if a:", "    x<>", "    ~ n = 1", "    y<> // c", "  @else:", "    z<>", "  @endif", "@endfor"], 0),
+    # whitespace-only lines in @py: bodies (3dd8bdc); multi-line ~ statements in branches (19fd338)
+    ("py", ["@py:", "  a = 1", "   ", "", "\t", "  b = 2", "@endpy"], 0),
+    ("cond", ["@if a:", "  @py:", "    a = 1", "  ", "    b = 2", "  @endpy", "@endif"], 0),
+    ("cond", ["@if a:", "    ~ x = [", "      1,", "  2,", "", "    ]", "    after", "@endif"], 0),
+    ("cond", ["  @if a:", "\t~ d = {", "\t  'k': (1,", "   2)}", "  @endif"], 0),
+    ("cond", ["@if a:", "  ~ x = (", "  1"], 0),
+    ("loop", ["@for i in xs:", "  @if a:", "      ~ x = [", "        1]", "  @endif", "  ~ y = (", "    2)", "@endfor"], 0),
     # comment / blank lines at the head of a loop body (623c615)
     ("loop", ["@for x in xs:", "# note", "", "    item", "  # later comment", "    more", "@endfor"], 0),
     ("loop", ["@for x in xs:", "  ", "#a", "   #b", "", "      deep", "  shallow", "@endfor"], 0),
@@ -669,15 +676,18 @@ def run(tier: str, seed: int) -> int:
         has_glue = hasattr(blocks, "_append_text_lines")                                            # b0767bb
         has_b = hasattr(blocks, "MAX_BLOCK_DEPTH")                                                  # 179a3c4
         has_lc = "del loop_raw_lines[first]" in inspect.getsource(blocks.extract_loop_block)        # 623c615
+        has_pb = "if code_line.strip() else" in inspect.getsource(blocks._extract_py_new_syntax)    # 3dd8bdc
+        has_ct = "continuation" in inspect.getsource(blocks.extract_conditional_block)              # 19fd338
     else:
         has_a, has_glue, has_b = {"fixed": (True, True, True), "a": (True, True, False),
                                   "current": (False, False, False)}[variant]
-        has_lc = has_a
-    if not (has_a == has_glue == has_lc):
-        # the model's `fixed` flag stands for the three conditional/loop-extractor fixes together
-        chk.disagree("version", "blocks.py has some but not all of the fixes 2da11ec / b0767bb / 623c615: "
-                     "no version of Compiler/ParseBlocks.v corresponds to this tree",
-                     {"has_2da11ec": has_a, "has_b0767bb": has_glue, "has_623c615": has_lc})
+        has_lc = has_pb = has_ct = has_a
+    marks = {"2da11ec": has_a, "b0767bb": has_glue, "623c615": has_lc, "3dd8bdc": has_pb, "19fd338": has_ct}
+    if len(set(marks.values())) != 1:
+        # the model's `fixed` flag stands for these fixes together
+        chk.disagree("version", "blocks.py has some but not all of the fixes " + " / ".join(marks) +
+                     ": no version of Compiler/ParseBlocks.v corresponds to this tree", marks)
+    has_lc = all(marks.values())
     has_glue = has_glue and has_lc
     variant = {(True, True): "fixed", (True, False): "a", (False, False): "current"}.get((has_a and has_glue, has_b), "cap-only")
     vargs = f"{coq_bool(has_a and has_glue)} {'(Some max_block_depth)' if has_b else 'None'}"
